@@ -522,7 +522,7 @@ Theorem nft_all_exits s0 k cut : erase c s0 = s0 -> sess_ok c s0 k cut = true.
 Proof.
   intro He.
   apply (all_exits c nft_not_pf Hwf nft_udp (option table) nRel (fun _ => None) (fun _ _ => True) (fun _ _ => True)
-           (fun _ => n_nd) nS nRr).
+           (fun _ => n_nd) (fun _ => false) nS nRr).
   - exact nft_sim_S.
   - exact nft_sim_R.
   - intros F G f n a ok n' a' tr. unfold nS, nrun. apply arun_ext.
@@ -531,12 +531,13 @@ Proof.
   - intros F f n a ok n' a' tr. unfold nRr, nrun. apply arun_mono.
   - trivial.
   - trivial.
-  - trivial.
+  - intros; left; exact I.
   - intros f n a ok n' a' tr _ _ H. eapply nft_restore_nf; exact H.
   - intros f n a ok n' a' tr On _ H. split; [|exact I]. eapply nft_setup_nf; [|exact H]. exact (Hbody f On).
   - intros f k0 n a ok n' a' tr _ _ H. eapply nft_restore_one; exact H.
   - exact nft_fin.
   - exact nft_nd.
   - apply nft_init. exact He.
+  - cbv zeta. apply andb_false_iff. right. destruct (nth_cmd _ _); reflexivity.
 Qed.
 End NftMethod.
